@@ -24,7 +24,7 @@ CHECKS = {
              'object and with one carrying the context of another release: the connection\'s release decides the bytes. Relay: '
              'every clientbound core packet is decoded by the real PacketReactor.read_packet (socket pair) at release A and written '
              'again under a release B with the same reference fields; the bytes must be B\'s reference frame.',
-        note='The table is recollected (no network): any disagreement on the unchanged tree is adjudicated from in-repo evidence or '
+        note='The relay pass holds the reactors of both releases at once. The table is recollected (no network): any disagreement on the unchanged tree is adjudicated from in-repo evidence or '
              'the row dropped - none was needed. NBT fields use one fixed blob. Trusted: TLC, pynbt for the blob.',
         design='5/C07'),
     'C05': dict(
@@ -43,7 +43,7 @@ CHECKS = {
              'reference encoders cover TLC recomputes the payload from (id, typed field values). Programs include the '
              'context-dependent leaf Position, flat and inside nested arrays, encoded under both layouts and replayed under a context '
              'of the matching era.',
-        note='Every round trip is preceded by a write that fails part-way. Half of the generated strings are built from special code points (section sign, controls, NUL, BOM, non-characters, quotes, bidi / zero-width). Trusted: TLC, pynbt (opaque), the harness\'s value generators and hand-written builders for the six hand-written codecs. A '
+        note='All 369 known versions are swept: the 119 not supported as shipped are declared supported at run time first (documented mechanism), and restored. Every round trip is preceded by a write that fails part-way. Half of the generated strings are built from special code points (section sign, controls, NUL, BOM, non-characters, quotes, bidi / zero-width). Trusted: TLC, pynbt (opaque), the harness\'s value generators and hand-written builders for the six hand-written codecs. A '
              'change applied consistently to reader and writer of a hand-written codec is C07\'s to catch for core packets.',
         design='5/C05'),
     'C20': dict(
@@ -61,7 +61,7 @@ CHECKS = {
              'record class hierarchies with the parent class exercised first), attribute aliases and the flag names '
              'of every value 0..255 of the library\'s three flag enums and of generated enums (name parses back; None only when the value '
              'is no union of members) are checked by TLC on recorded observations.',
-        note='Map updates whose last row is not full; the map keeps its size. Every attribute alias the library declares is discovered by walking its classes and probed in both directions; generated flag enums include enums extending another enum and overriding a member. Trusted: TLC, the projection of the real objects. Integer-valued coordinates; a 4x4 window of the 128x128 map.',
+        note='Every other map update is written to bytes and read by one re-used MapPacket object. Map updates whose last row is not full; the map keeps its size. Every attribute alias the library declares is discovered by walking its classes and probed in both directions; generated flag enums include enums extending another enum and overriding a member. Trusted: TLC, the projection of the real objects. Integer-valued coordinates; a 4x4 window of the 128x128 map.',
         design='5/C20'),
     'C19': dict(
         technique='TLA+ model of the token (AuthToken.tla): one transition per (stored-field subset, operation, reply status x body '
@@ -76,7 +76,7 @@ CHECKS = {
              '(endpoint URL, JSON content type, payload incl. agent block and the clientToken rule, or no request at all), the return '
              'value or YggdrasilError (status code, service error fields or the malformed message), the stored fields afterwards and '
              'the authenticated property are compared with the model.',
-        note='Trusted: TLC. The service is a stand-in inside the process (requests.post replaced by a recorder returning real '
+        note='The service stand-in sits at urllib3 HTTPConnectionPool._make_request (below sessions, adapters and retry policies); rate-limiting replies carry Retry-After every other time. Trusted: TLC. The service is a stand-in inside the process (requests.post replaced by a recorder returning real '
              'requests.Response objects). Combinations the property does not constrain are recorded as "any".',
         design='5/C19'),
     'C18': dict(
@@ -92,7 +92,7 @@ CHECKS = {
              'lengths 1..64, 1024- and 2048-bit keys). Traces come from whole encrypted logins against the independent peer (which '
              'encrypts with its own CFB8 loop, so interoperation is exercised) and from the wrappers driven directly with random '
              'partitions in both directions.',
-        note='Half of the encrypted logins carry an ordinary outgoing listener on the encryption response (returning, or raising IgnorePacket). Groups of three logins through one Connection object must negotiate distinct secrets. Trusted: TLC arithmetic / Bitwise overrides, Python pow() for the private-key operation. Randomness is checked for source, '
+        note='Login-reactor traces with a packet already queued when the encryption request is handled: nothing follows the response in plaintext. Half of the encrypted logins carry an ordinary outgoing listener on the encryption response (returning, or raising IgnorePacket). Groups of three logins through one Connection object must negotiate distinct secrets. Trusted: TLC arithmetic / Bitwise overrides, Python pow() for the private-key operation. Randomness is checked for source, '
              'use and distinctness only. About 2.5 KB (quick) of stream are recomputed by the TLA+ AES.',
         design='5/C18'),
     'C17': dict(
@@ -109,7 +109,7 @@ CHECKS = {
              'SignedHex(SHA1(utf8(id) o secret o key)). The same is required of the string LoginReactor.react hands to the '
              'token\'s join for the secret the key holder recovers and the key bytes the server sent, in three encodings the '
              'client accepts (SubjectPublicKeyInfo, bare PKCS#1, SubjectPublicKeyInfo without NULL parameters).',
-        note='A token stand-in whose first join is refused and whose refresh succeeds is used in a quarter of the login-level observations: every hash handed to join is judged. Trusted: TLC arithmetic and Bitwise overrides. hashlib is checked, not trusted. The full login around the join is '
+        note='Six consecutive logins through one Connection object with a changing key encoding. A token stand-in whose first join is refused and whose refresh succeeds is used in a quarter of the login-level observations: every hash handed to join is judged. Trusted: TLC arithmetic and Bitwise overrides. hashlib is checked, not trusted. The full login around the join is '
              'C10\'s.',
         design='5/C17'),
     'C14': dict(
@@ -123,7 +123,7 @@ CHECKS = {
              'scenarios (all with long call logs, a seeded sample of the rest) run against the real code; the handler call log with '
              'the exception each handler saw, the final handler\'s argument, connection.exception, whether run() re-raised, the '
              'socket closed at the peer, the cleared thread slot and a following connect() are compared with the model.',
-        note='Faults during the status query that precedes a login, with I/O-family exception types, are routed like any other. Also: the re-raised exception must be the last exception of the chain; a packet queued by the failing listener and a raising outgoing listener must not be reached by the fault\'s clean-up. Trusted: TLC, scheduler and virtual primitives, peer codec. Chains of 4 handlers are not generated.',
+        note='Raising handlers that first attempt a connect() that is refused; the virtual layer finalises unreferenced sockets as CPython does. Faults during the status query that precedes a login, with I/O-family exception types, are routed like any other. Also: the re-raised exception must be the last exception of the chain; a packet queued by the failing listener and a raising outgoing listener must not be reached by the fault\'s clean-up. Trusted: TLC, scheduler and virtual primitives, peer codec. Chains of 4 handlers are not generated.',
         design='5/C14'),
     'C12': dict(
         technique='TLA+ model of concurrent writers (ConnWriter.tla) with all interleavings checked by TLC (the variant without the '
@@ -139,7 +139,7 @@ CHECKS = {
              'per-thread reordering, a close before the flush, bytes after an immediate disconnect, lost forced writes, and an '
              'undecodable stream. Writers also race an encrypted login (forced write + cipher swap under the lock), and bursts of '
              '301-620 queued packets - more than the networking thread\'s 300-packet write batch - precede a non-immediate disconnect.',
-        note='Bursts go up to 4200 queued packets (nothing handed in may be dropped). Second sessions: packets queued, disconnect(immediate), connect(), packets queued, disconnect() on one Connection - the second TCP connection carries its own handshake and exactly its own packets (this scenario found the defect repaired by 29c3a80). Also: user-defined packets whose serialisation force-writes another packet on the same connection (re-entrant write lock). Every client frame of every execution is also judged by the connection-state grammar Trace_Session.tla. Trusted: TLC, scheduler and virtual primitives, CPython deque atomicity, the peer\'s deframer. Writes issued after the '
+        note='Outgoing listeners that call disconnect() from inside the write of a packet. Bursts go up to 4200 queued packets (nothing handed in may be dropped). Second sessions: packets queued, disconnect(immediate), connect(), packets queued, disconnect() on one Connection - the second TCP connection carries its own handshake and exactly its own packets (this scenario found the defect repaired by 29c3a80). Also: user-defined packets whose serialisation force-writes another packet on the same connection (re-entrant write lock). Every client frame of every execution is also judged by the connection-state grammar Trace_Session.tla. Trusted: TLC, scheduler and virtual primitives, CPython deque atomicity, the peer\'s deframer. Writes issued after the '
              'connection has been closed are outside the contract.',
         design='5/C12'),
     'C16': dict(
@@ -158,7 +158,7 @@ CHECKS = {
              'history <= 4 and thousands of two-thread scenarios with real threads under a token-passing scheduler (virtual lock, '
              'socket with separate read / write halves, select, queue, thread start/join; servers that accept, refuse, disconnect, close '
              'or stall in the middle of a frame); every execution is judged event by event by the contract.',
-        note='Contract clause (e): a failed connection\'s error handling must not tear down a connection made before the failure. Lifecycle servers announce compression at random and C16 owns the session grammar (Trace_Session): a reconnect that opens with an undecodable handshake has not connected again. Trusted: TLC, the scheduler and virtual primitives (semantics observed on real sockets), CPython atomicity of attribute '
+        note='Contract clause (g): the default reaction to a packet never tears down a connection a listener made in the meantime (listeners reconnecting on the play disconnect packet). Contract clause (e): a failed connection\'s error handling must not tear down a connection made before the failure. Lifecycle servers announce compression at random and C16 owns the session grammar (Trace_Session): a reconnect that opens with an undecodable handshake has not connected again. Trusted: TLC, the scheduler and virtual primitives (semantics observed on real sockets), CPython atomicity of attribute '
              'access. API bodies are atomic in the model because the code holds the write lock throughout. Contract clause (f): the disconnect '
              'that ends a thread\'s own error handling never takes down another thread\'s uninterrupted connection (fix 29c3a80; NoCrossTeardown in the model). '
              'Timed joins may expire whenever the joiner is scheduled again before the other thread ended.',
@@ -176,7 +176,7 @@ CHECKS = {
              'client must finish the execution (not exhaust the step budget, not spin on empty reads, not block, not idle for ever), '
              'report an error - or take exactly the documented fallback to the default version when the status query went '
              'unanswered - and deliver only completely sent packets; each run is judged read by read by the contract in TLC.',
-        note='Two conversations carry a 20 KB frame (plain / encrypted) with sampled cut offsets. Trusted: TLC, the scheduler and virtual socket layer as the observer of liveness (step budget 60000, spin = 50 empty '
+        note='Fallback connections that are refused must end in a reported error. Two conversations carry a 20 KB frame (plain / encrypted) with sampled cut offsets. Trusted: TLC, the scheduler and virtual socket layer as the observer of liveness (step budget 60000, spin = 50 empty '
              'reads), the peer codec.',
         design='5/C15'),
     'C01': dict(
@@ -197,7 +197,7 @@ CHECKS = {
              'WellFramed / PayloadRecovered over boundary sizes x thresholds x deflated sizes (the variant sizing the header by the '
              'deflated length must fail); frames of the real writer are measured without trusting their declared lengths (the end of the '
              'deflate stream is found by inflating) and judged by Trace_FrameWriter.tla.',
-        note='Also: compression enabled with threshold -1 as the state of a live connection (both directions). Every client frame of every execution is also judged by the connection-state grammar Trace_Session.tla. Trusted: TLC, virtual socket layer, zlib, the peer codec (AES block from cryptography, checked by C18). The exact '
+        note='Compression and encryption are announced in either order. Also: compression enabled with threshold -1 as the state of a live connection (both directions). Every client frame of every execution is also judged by the connection-state grammar Trace_Session.tla. Trusted: TLC, virtual socket layer, zlib, the peer codec (AES block from cryptography, checked by C18). The exact '
              'compress-iff-larger-than-threshold rule is model-level (drift), the contract requires recoverability and no compressed '
              'frame below the threshold.',
         design='5/C01'),
@@ -217,7 +217,7 @@ CHECKS = {
              'configurations one and the same callable is registered for several listeners of a list) '
              'code with the registration order shuffled across lists and the exact call log and the answers the peer saw compared; '
              'random configurations with up to 3 listeners per list are judged by TLC running the model from the recorded configuration.',
-        note='Decorator objects (the value of Connection.listener(...)) are re-used for several functions. Incoming listeners (superclass filters among them) may be registered after packets of their classes have been dispatched (Dispatch!late). Also: early listeners that call disconnect() on their own connection (only \'ignore\' stops stages: DisconnectingListenerStopsNothing). Trusted: TLC, virtual socket layer, peer codec. Listeners are registered while the networking thread is idle.',
+        note='Half of the executions register bound methods of otherwise unreferenced objects. Decorator objects (the value of Connection.listener(...)) are re-used for several functions. Incoming listeners (superclass filters among them) may be registered after packets of their classes have been dispatched (Dispatch!late). Also: early listeners that call disconnect() on their own connection (only \'ignore\' stops stages: DisconnectingListenerStopsNothing). Trusted: TLC, virtual socket layer, peer codec. Listeners are registered while the networking thread is idle.',
         design='5/C13'),
     'C09': dict(
         technique='TLA+ model of construction / negotiation / status queries (SessionNegotiate.tla) explored exhaustively; every '
@@ -231,7 +231,7 @@ CHECKS = {
              'versions given as names or numbers over four protocol maps (incl. 2^30-flagged numbers, first and last supported); the '
              'frames the peer decoded on each TCP connection, the connection count, the surfaced exception (class, server_protocol, '
              'wording supported/allowed), handler calls, latency sign, close and exit callback are compared with the model.',
-        note='Also: a status query after a failed attempt on the same Connection object. The scenarios are re-run after the supported-version table has been changed at run time (one version added, one withdrawn, initglobals()). Every client frame of every execution is also judged by the connection-state grammar Trace_Session.tla. Trusted: TLC, virtual socket layer, peer codec. The status-phase handshake may carry any allowed version (contract); the '
+        note='A quarter of the login scenarios carry a token whose profile is filled in after the Connection was constructed. Also: a status query after a failed attempt on the same Connection object. The scenarios are re-run after the supported-version table has been changed at run time (one version added, one withdrawn, initglobals()). Every client frame of every execution is also judged by the connection-state grammar Trace_Session.tla. Trusted: TLC, virtual socket layer, peer codec. The status-phase handshake may carry any allowed version (contract); the '
              'model says the latest. Default handlers are observed through captured stdout.',
         design='5/C09'),
     'C10': dict(
@@ -267,7 +267,7 @@ CHECKS = {
              'Also: two sessions in a row on one Connection object with different compression settings (each judged as a session '
              'of its own; also with the first session dropped behind unanswered keep-alives), two Connection objects alive at once '
              'on different versions, and the play disconnect packet arriving while queued writes are pending under random schedules.',
-        note='Threshold "edge": exactly the size of one of the play packets to come. Also: play-state set-compression in mid-history at protocols up to 47; angles outside [0,360) in the pre-107 echo; a burst answered by the server\'s disconnect packet (deferred write error cancelled). Every client frame of every execution is also judged by the connection-state grammar Trace_Session.tla. Trusted: TLC, the virtual socket/select/lock layer (semantics taken from real sockets), the peer codec, zlib. Packet '
+        note='The virtual socket honours settimeout (a read that must wait may time out); one frame in every fourth long history arrives in two pieces with a wait in between. Threshold "edge": exactly the size of one of the play packets to come. Also: play-state set-compression in mid-history at protocols up to 47; angles outside [0,360) in the pre-107 echo; a burst answered by the server\'s disconnect packet (deferred write error cancelled). Every client frame of every execution is also judged by the connection-state grammar Trace_Session.tla. Trusted: TLC, the virtual socket/select/lock layer (semantics taken from real sockets), the peer codec, zlib. Packet '
              'ids per version come from the code\'s tables (C07 pins them at releases). Single networking thread: schedules are '
              'not the quantifier here (C12/C16).',
         design='5/C11'),
@@ -296,7 +296,7 @@ CHECKS = {
              'layout the code uses at each of the known protocol versions and TLC checks the vector is XYZ up to '
              '404, XZY from 477 with a single switch; every row is replayed at representative versions of its layout '
              'and seeded random triples at random versions are recomputed by TLC.',
-        note='Also: a packet carrying another era\'s context written through Connection.write_packet must hold the position word of the connection\'s era. Trusted: TLC, JSON hand-over; chronological rank from the code\'s own version list (C08 checks it). '
+        note='A context object taken from a Connection before a negotiated connect() packs positions for the negotiated protocol afterwards. Also: a packet carrying another era\'s context written through Connection.write_packet must hold the position word of the connection\'s era. Trusted: TLC, JSON hand-over; chronological rank from the code\'s own version list (C08 checks it). '
              'Full boundary product only in the thorough tier; quick uses a reduced product plus full per-axis sweeps.',
         design='5/C04'),
     'C06': dict(
@@ -311,7 +311,7 @@ CHECKS = {
              'descending, zig-zag and shuffled version orders (must stay total and injective whatever was built before) and the '
              'reactors are rebuilt on one context walked across all versions; reactors of all versions are kept alive and re-checked '
              'after the others have been built. Exhaustive over the quantifier of the property.',
-        note='Versions declared at run time (records appended + initglobals) get total, injective tables equal to those of the latest shipped version. State hand-over probe: one frame read through the real read_packet by the login reactor and then by the playing reactor of the same connection. Application subclasses of every registered class and library base are defined before the tables are rebuilt: none may appear in a table. Trusted: TLC, JSON hand-over. Nine collisions inside snapshot windows are recorded as known findings '
+        note='Whole sessions with an ordinary listener raising IgnorePacket for the login success: the play packets that follow are delivered as play classes. Versions declared at run time (records appended + initglobals) get total, injective tables equal to those of the latest shipped version. State hand-over probe: one frame read through the real read_packet by the login reactor and then by the playing reactor of the same connection. Application subclasses of every registered class and library base are defined before the tables are rebuilt: none may appear in a table. Trusted: TLC, JSON hand-over. Nine collisions inside snapshot windows are recorded as known findings '
              '(known_findings.json); entries so excused are excluded from the TLC walk, every other collision alarms.',
         design='5/C06'),
     'C02': dict(
@@ -324,7 +324,7 @@ CHECKS = {
              'to depth 3; every row is replayed into send/read of the real types (bytes equal, value back, exact '
              'consumption, every strict prefix raises) and seeded random wide values are validated by TLC. Reads rotate over the '
              'stream kinds the decoders meet in the library (socket-file stand-in, PacketBuffer, BytesIO).',
-        note='Malformed inputs are fed to the decoders between valid rows; a valid encoding decoded right afterwards must read as before. Trusted: TLC, JSON hand-over, ldexp/frexp for carrying floats, zlib/NBT out of scope. Long '
+        note='FixedPoint instances are kept and re-used while other scales over the same integer type are constructed in between. Malformed inputs are fed to the decoders between valid rows; a valid encoding decoded right afterwards must read as before. Trusted: TLC, JSON hand-over, ldexp/frexp for carrying floats, zlib/NBT out of scope. Long '
              'encodings have their strict prefixes sampled.',
         design='5/C02'),
     'C03': dict(
@@ -338,7 +338,7 @@ CHECKS = {
              'inputs run through the code are validated against the contract by TLC. The reader is driven through the '
              'socket-file stand-in, the library\'s PacketBuffer and a bare BytesIO (all three for short inputs, rotating '
              'otherwise); the kinds must agree.',
-        note='Interleaved encoders: a second complete VarInt.send forced into the middle of the first (an int whose shift encodes another value), and three real threads under a 1 us switch interval. Trusted: TLC, the JSON hand-over, the counting stream/sink stand-ins, a 20000-line step '
+        note='Decoders are reached both as read() and as read_with_context() (the packet-field path). Interleaved encoders: a second complete VarInt.send forced into the middle of the first (an int whose shift encodes another value), and three real threads under a 1 us switch interval. Trusted: TLC, the JSON hand-over, the counting stream/sink stand-ins, a 20000-line step '
              'budget as the observable for non-termination. 3-byte inputs by shape x boundary payloads, '
              'not all 2^24.',
         design='5/C03'),
